@@ -26,7 +26,7 @@ pub fn cfg_for(prop: &'static str) -> FsxCfg {
     let base = FsxCfg {
         prop,
         profile: Profile::rw(),
-        bias: VolBias::default(),
+        bias: VolBias { full_dirs: true, ..VolBias::default() },
         multi: true,
         steps: (1, 60),
         all_cfgs: false,
